@@ -44,7 +44,7 @@ def c04_projects(quick: bool, rng: random.Random) -> List[Dict[str, Any]]:
     ps += [p for p in families.t3_reexport() if p["meta"].get("idiom") in ("moved-module", "module-alias-handed-on")
            or (p["meta"].get("form") == "plain" and p["meta"].get("consumers") in (["o"], ["o2"], ["o", "r"]))]
     ps += list(families.t1_base_chains())[:: (6 if quick else 1)] + list(families.t6_nested_packages())
-    ps += list(families.t15_rebinding()) + list(families.t_c04_cycles())
+    ps += list(families.t15_rebinding()) + list(families.t_c04_cycles()) + list(families.t17_how_all_is_written())
     for p in families.rnd2_corpus(quick):
         if p["meta"].get("cyclic"):
             # what a name denotes depends on the module imported first: evaluate every entry order (rotations for larger projects)
@@ -273,6 +273,31 @@ def kf_multi_reexported(w: Dict[str, Any]) -> bool:
     return list(w["expected_site"]) in [list(x["site"]) for x in P.expected_reexports(proj, multi=True)]
 
 
+def kf_all_not_read(w: Dict[str, Any]) -> bool:
+    """Known finding: a module whose __all__ is not ONE top-level assignment of a list / tuple literal (a concatenation, an
+       assignment nested in an `if`) is read as having no __all__: a star import of it brings in every public name, also those
+       Python leaves out, and a name the importing module had bound before is taken over by the star import.
+       Matches only a name that resolved to an object DEFINED in such a module and NOT listed in its __all__, read in (or through)
+       a module that star-imports it."""
+    if w.get("invariant") != "ResolvesRightOrNot" or not w.get("got_site") or not w.get("scope"):
+        return False
+    proj = w.get("origin", {}).get("project", {})
+    mods = proj.get("mods", [])
+    li = w["got_site"][0]
+    if not (0 < li <= len(mods)):
+        return False
+    L = mods[li - 1]
+    if not L.get("hasAll") or L.get("allform") not in ("concat", "conditional"):
+        return False
+    op = L["ops"][w["got_site"][1] - 1] if 0 < w["got_site"][1] <= len(L["ops"]) else {}
+    if op.get("n") in L["all"] or op.get("k") not in ("class", "def", "var"):
+        return False
+    lq = ".".join(P.mod_path(proj, li - 1))
+    stars = [mi for mi, m in enumerate(mods, 1) if any(o["k"] == "star" and P.resolve_import_target(proj, mi, o["lvl"], o["m"]) == lq for o in m["ops"])]
+    first = str(w.get("name", "")).split(".")[0]
+    return bool(stars) and (w["scope"][0] in stars or any(mods[mi - 1]["name"] == first for mi in stars))
+
+
 def kf_nested_class_scope(w: Dict[str, Any]) -> bool:
     """Known finding: a bare name read in the body of a NESTED class is looked up in the enclosing class before the module
        (Class._localNameToFullName delegates to its parent, whatever the parent is); Python never looks in the enclosing class.
@@ -361,6 +386,7 @@ def run(ctx: Ctx) -> int:
     ctx.register_matcher("reexported-then-redefined-in-reexporter", kf_moved_then_redefined)
     ctx.register_matcher("object-reexported-by-several-modules-unresolved", kf_multi_reexported)
     ctx.register_matcher("nested-class-sees-enclosing-class-names", kf_nested_class_scope)
+    ctx.register_matcher("all-not-one-literal-read-as-absent", kf_all_not_read)
     projs = c04_projects(ctx.quick, rng)
     counters: Dict[str, int] = collections.Counter()
     validated_names = 0
